@@ -2,7 +2,7 @@
     ReadProofs.v): occurrences (option, value), positionals, the first "--"; the executable reading
     [view], taken from the reference semantics' [RefSem.read]; the decidable side conditions of the
     C10 / C11 theorems. *)
-From MowCli Require Import Base Parser Nfa Matchers RefSem.
+From MowCli Require Import Base Parser Nfa Matchers RefSem Values Flow Cmd.
 
 Inductive vs := VO (o : nat) (v : str) | VP (t : str) | VDD.
 
@@ -52,3 +52,6 @@ Definition no_dd_graph (g : graph) : bool :=
 
 Definition no_dd_b (p : list vs) : bool := forallb (fun s => match s with VDD => false | _ => true end) p.
 
+
+(** no declared option has its value from the environment (the quantifier of C09) *)
+Definition no_env (opts : list container) : bool := forallb (fun c => negb (ct_fromenv c)) opts.
